@@ -57,7 +57,7 @@ def main():
         tests = "tests" if a.full else " ".join(t for t in a.tests.split(",") if t)
         t0 = time.time()
         rct, outt = sh(f"/venv/bin/python -m pytest -q -p no:cacheprovider --timeout=900 {tests}", cwd=wt, env=env)
-        rec["ran"].append({"cmd": f"pytest {tests} (with patch)", "rc": rct, "tail": outt.strip().splitlines()[-1] if outt.strip() else "", "wall": round(time.time() - t0)})
+        rec["ran"].append({"cmd": f"pytest {tests} (with patch)", "rc": rct, "tail": outt.strip().splitlines()[-1] if outt.strip() else "", "failed": [l for l in outt.splitlines() if l.startswith("FAILED") or "Timeout" in l][:5], "wall": round(time.time() - t0)})
         checks = [c for c in (a.checks or a.pid).split(",") if c]
         caught = {}
         for c in checks:
